@@ -45,3 +45,63 @@ def native_layout(layout_row, data_row, table='element'):
         if bad:
             return False, 'layout row %r, data row %r (column positions %r): ' % (layout_row, row, numpos) + '; '.join(bad)
     return True, 'cells are the printed numbers (column positions %r)' % (numpos,)
+
+
+HEAD = {'element': [' ELEM.  INDEX     P           T          SG', '                 (PA)      (DEG-C)            (KG/M**3)', ''],
+        'connection': ['   ELEM1  ELEM2  INDEX    FLOH      FLOH/FLOF       FLOF', '                          (W)        (J/KG)        (KG/S)', '']}
+
+
+def _printed(f):
+    body = f[1:].replace('E', '')
+    k = max(body.rfind('+'), body.rfind('-'))
+    return float(('-' if f[0] == '-' else '') + body[:k] + 'e' + body[k:])
+
+
+def native_table_whole(rows, table='element'):
+    """the real setup_table_TOUGH2 on the first two rows and read_table_TOUGH2 on the later two, over a real (in-memory) file"""
+    import io
+    from t2listing import t2listing
+    from mulgrids import fix_blockname
+    cols, keys, f0, w = {'element': (['P', 'T', 'SG'], [1], 12, 12), 'connection': (['FLOH', 'FLOH/FLOF', 'FLOF'], [3, 10], 21, 13)}[table]
+    def table_lines(rs): return HEAD[table] + list(rs) + ['', ' ' + '@' * 100, '']
+    def variants(pair):
+        yield pair
+        for digits, sign in (('7391', '-'), ('1', ' '), ('9', '-'), ('2468', ' ')):
+            outs = []
+            for row in pair:
+                out, k = list(row), 0
+                for j in range(f0, len(row)):
+                    if (j - f0) % w == 0: out[j] = sign
+                    elif row[j].isdigit() and row[j - 1] != ' ' and not (row[j] == '0' and row[j + 1: j + 2] == '.'):
+                        out[j] = digits[k % len(digits)]; k += 1
+                outs.append(''.join(out))
+            yield outs
+    for later in variants(rows[2:]):
+        first = table_lines(rows[:2])
+        text = '\n'.join(first + table_lines(later)) + '\n'
+        me = t2listing.__new__(t2listing)
+        me._file = io.BytesIO(text.encode()); me.encoding = 'utf-8'; me.title = 'the title'; me._table = {}; me._tablenames = []; me.simulator = 'TOUGH2'
+        try:
+            me.setup_table_TOUGH2(table)
+            me._file.seek(len(('\n'.join(first) + '\n').encode()))
+            me.read_table_TOUGH2(table)
+        except Exception as ex:
+            return False, 'first set %r: raises %s: %s' % (rows[:2], type(ex).__name__, ex)
+        tab = me._table[table]
+        bad = []
+        after_read = me._file.tell()
+        me._file.seek(len(('\n'.join(first) + '\n').encode()))
+        me.skip_table_TOUGH2(table)
+        lo, hi = [len(('\n'.join(first + table_lines(later)[:k]) + '\n').encode()) for k in (-3, -2)]
+        if not lo <= after_read <= hi: bad.append('cursor left at byte %d, the table ends at %d and the next separator at %d' % (after_read, lo, hi))
+        if me._file.tell() != after_read: bad.append('skipping the table leaves the cursor at byte %d, reading it at %d' % (me._file.tell(), after_read))
+        names = [fix_blockname(r[keys[0]: keys[0] + 5]) if len(keys) == 1 else tuple(fix_blockname(r[k: k + 5]) for k in keys) for r in later]
+        if list(tab.row_name) != names: bad.append('row names %r, printed %r' % (list(tab.row_name), names))
+        else:
+            for r, nm in zip(later, names):
+                for i, c in enumerate(cols):
+                    f = r[f0 + w * i: f0 + w * (i + 1)]
+                    if not (tab[nm][c] == _printed(f)): bad.append('row %r column %s: printed %r read as %r' % (nm, c, f, tab[nm][c]))
+        if bad:
+            return False, 'first set %r, later set %r (row format %r): ' % (rows[:2], later, tab.row_format) + '; '.join(bad[:3])
+    return True, 'cells are the printed numbers (row format %r)' % (tab.row_format,)
